@@ -45,15 +45,20 @@ RULE = ("geometry: polygons with 3..12 vertices (integer grids up to 7x7 with "
         "at least one filter with >= 3 points (persistence); distinct = different case dict")
 TRUSTED_BASE = [
     "NOT PROVED: independence of the crossing parity from the direction of the "
-    "ray (classical). Validated instead: (a) Coq sweep theorem C15_sweep over "
-    "all triangles on the 3x3 grid x 7x7 half-integer points against the "
-    "quadrant winding number and the leftward ray, (b) the Python oracle uses a "
-    "random generic ray direction and the quadrant winding number on every case",
+    "ray (classical). Proved instead: the half-open rule equals the proper-crossing parity "
+    "of every ray slightly above (C15_halfopen_is_perturbation). Validated: (a) Coq sweep "
+    "theorem C15_sweep over all triangles on the 4x4 grid x 9x9 half-integer points and all "
+    "quadrilaterals on the 3x3 grid x 7x7 points against the quadrant winding number and the "
+    "leftward ray, (b) the Python oracle uses a random generic ray direction and the "
+    "quadrant winding number on every case, a vertical ray in the exhaustive grid part",
     "NOT MODELLED: binary64 rounding of (xp[j]-xp[i])*(y-yp[i])/(yp[j]-yp[i])+xp[i]; "
     "coordinates are exact rationals in Coq. Query points closer to an edge than "
     "2^-40 relative are compared float-vs-binary only, not against the exact model",
     "translator pnpoly_pyx.py (tokeniser + precedence parser for the loop condition, "
-    "exact skeleton match of the loop) and decythonize_geometry.py",
+    "exact skeleton match of the loop) and decythonize_geometry.py (mechanical removal of "
+    "cdef/cimport/typed arguments/&x[0]/casts from geometry.pyx and _pnpoly.pyx; C division "
+    "emulated; Cython is not installed, so the binary cannot be rebuilt from a changed .pyx: "
+    "a divergence between source text and binary is reported as correspondence breakage)",
     "oracle hypotheses of C15_roundtrip_partial (explicit premises of the theorem): "
     "np.float64('{:.16e}'.format(v)) == v and the printed coordinate is a non-empty token "
     "without blank, '=', '[' or ']'; int('{:08d}'.format(n)) == n and the printed integer is "
@@ -63,7 +68,8 @@ TRUSTED_BASE = [
     "coordinates as decimal integers (cases with integer-valued coordinates; the real text "
     "is normalised token by token); universal-newline reading, str.strip()'s blank set and "
     "ASCII lower() are modelled, other Unicode case mappings are not",
-    "the compiled _pnpoly wrapper (astype(np.double), memoryviews) is exercised, not modelled",
+    "the _pnpoly wrapper (astype(np.double), argument order) is executed from source and "
+    "as binary and compared, not modelled in Coq",
 ]
 ASSUMPTIONS = [
     "polygon and query coordinates are finite (no NaN/inf)",
@@ -103,28 +109,40 @@ _SRC = {}
 
 
 def source_ns(run=None):
-    """de-cythonised geometry.pyx (None when the de-cythoniser fails closed)"""
+    """de-cythonised geometry.pyx + _pnpoly.pyx (None when a de-cythoniser fails closed)"""
     if "ns" not in _SRC:
         from .translators import decythonize_geometry as dg
         from .translators import pnpoly_pyx
         try:
-            _SRC["ns"] = dg.load_geometry(pnpoly_pyx.source_path(common.REPO))
+            path = pnpoly_pyx.source_path(common.REPO)
+            ns = dg.load_geometry(path)
+            wrap = dg.load_pnpoly(os.path.join(os.path.dirname(os.path.dirname(path)),
+                                               "_pnpoly.pyx"), ns)
+            ns = dict(ns, _points_in_poly=wrap["_points_in_poly"],
+                      _grid_points_in_poly=wrap["_grid_points_in_poly"])
+            _SRC["ns"] = ns
         except Exception as e:
             _SRC["ns"] = None
             if run is not None:
-                run.broken.append(("translator(decythonize geometry.pyx)",
+                run.broken.append(("translator(decythonize geometry.pyx/_pnpoly.pyx)",
                                    "failed closed: %r" % (e,)))
     return _SRC["ns"]
 
 
 def run_source(ns, poly, pts, exact):
-    conv = Fraction if exact else float
-    xp = [conv(v[0]) for v in poly]
-    yp = [conv(v[1]) for v in poly]
-    xs = [conv(p[0]) for p in pts]
-    ys = [conv(p[1]) for p in pts]
-    res = [0] * len(pts)
+    """exact: the text of points_in_polygon evaluated with Fractions;
+    otherwise the text of _points_in_poly (wrapper + loop) with binary64"""
     try:
+        if not exact:
+            import numpy as np
+            res = ns["_points_in_poly"](np.array(pts, dtype=float).reshape(-1, 2),
+                                        np.array(poly, dtype=float).reshape(-1, 2))
+            return [1 if r else 0 for r in res]
+        xp = [Fraction(v[0]) for v in poly]
+        yp = [Fraction(v[1]) for v in poly]
+        xs = [Fraction(p[0]) for p in pts]
+        ys = [Fraction(p[1]) for p in pts]
+        res = [0] * len(pts)
         ns["points_in_polygon"](len(poly), xp, yp, len(pts), xs, ys, res)
     except Exception as e:
         return "error:%s" % type(e).__name__
